@@ -261,6 +261,17 @@ def check_guard_use(ctx):
                                for s in node.body for k in ast.walk(s))
                 if reducers:
                     n += 1
+                    # the emptiness of X[J] is decided by the index array J (from np.where), not by X
+                    where_defs = set()
+                    for a_ in ast.walk(f):
+                        if isinstance(a_, ast.Assign) and len(a_.targets) == 1 and isinstance(a_.targets[0], ast.Name) and "np.where(" in norm(a_.value):
+                            where_defs.add(a_.targets[0].id)
+                    for s_ in node.body:
+                        for k in ast.walk(s_):
+                            if isinstance(k, ast.Call) and (call_name(m, k) or "") in ("numpy.percentile", "numpy.median", "numpy.min", "numpy.max", "numpy.mean") and k.args:
+                                op = k.args[0]
+                                if isinstance(op, ast.Subscript) and isinstance(op.slice, ast.Name) and op.slice.id in where_defs and op.slice.id != arg.id:
+                                    used = False
                     ctx.ob("C19.5", qual, used, "the block guarded by len(%s) > 0 operates on %s" % (arg.id, arg.id), loc=prog.loc(m, node),
                            msg="the guard tests len(%s) but the guarded reduction does not use %s: the really empty case is unprotected (IndexError on an all-missing field)" % (arg.id, arg.id))
     ctx.need(n >= 1, "no len()-guarded reductions found")
